@@ -36,7 +36,8 @@ static int pass_login(int have_login, const char *l) { return have_login && (is_
 /* the field's name is a member of the received Connection list (strConnection non-empty and strListIsMember's verdict) */
 static int listed(const long *in) { return in[IN_CONN_SIZE] > 0 && on(in[IN_LISTED]); }
 
-/* FINDING (known_findings.txt): registered fields with a case of their own in the switch never reach the Connection-list test */
+/* registered fields with a case of their own in the switch: before /repo commit df09444 they never reached the Connection-list test
+ * (fixed finding, see known_findings.txt); kept as a separately named obligation */
 static int own_case_relayed(long id)
 {
     return id == PROXY_AUTHORIZATION || id == AUTHORIZATION || id == HOST || id == IF_MODIFIED_SINCE || id == IF_NONE_MATCH || id == VIA || id == RANGE ||
@@ -105,8 +106,8 @@ void h_copy(void)
     __CPROVER_assert(!(id == PROXY_AUTHORIZATION && appended) || (!on(in[IN_SF_toOrigin]) && pass_login(have_login, login)),
                      "ensures: Proxy-Authorization is appended only towards a non-origin cache_peer whose login= is PASS, PASSTHRU or PROXYPASS");
     __CPROVER_assert(id != PROXY_AUTHORIZATION || (g_put_calls == 0 && g_puti_calls == 0), "ensures: Proxy-Authorization is never re-emitted in another form here");
-    __CPROVER_assert(!(id == PROXY_AUTHORIZATION && !on(in[IN_SF_toOrigin]) && pass_login(have_login, login)) || appended == 1,
-                     "pinned: Proxy-Authorization IS passed on to a non-origin cache_peer with login=PASS|PASSTHRU|PROXYPASS");
+    __CPROVER_assert(!(id == PROXY_AUTHORIZATION && !on(in[IN_SF_toOrigin]) && pass_login(have_login, login) && !listed(in)) || appended == 1,
+                     "pinned: Proxy-Authorization (not named in Connection) IS passed on to a non-origin cache_peer with login=PASS|PASSTHRU|PROXYPASS");
 
     /* ---- C04: fields named in the received Connection header ---- */
 #ifdef TWIN_LISTED
@@ -118,7 +119,11 @@ void h_copy(void)
     __CPROVER_assert(!(listed(in) && own_case_relayed(id)) || appended == 0,
                      "ensures: [own-case ids] a field whose name is listed in Connection is not appended (Proxy-Authorization, Authorization, Host, If-Modified-Since, If-None-Match, Via, Range, If-Range, Request-Range, Front-End-Https)");
     __CPROVER_assert(!(listed(in) && id == CONTENT_LENGTH) || appended == (on(in[IN_SF_chunked_request]) ? 0 : 1),
-                     "pinned: Content-Length listed in Connection is still relayed unless the request is re-chunked (deliberate, see the comment in its case: smuggling defence)");
+                     "pinned: Content-Length listed in Connection is still relayed unless the request is re-chunked (deliberate, see the comments: smuggling defence)");
+    __CPROVER_assert(!(listed(in) && id != CONTENT_LENGTH) || out_total == 0,
+                     "pinned: a field named in Connection adds nothing at all here, not even Squid's own Host or a decremented Max-Forwards");
+    __CPROVER_assert(id == CONTENT_LENGTH || g_listed_calls == (in[IN_CONN_SIZE] > 0 ? 1 : 0),
+                     "pinned: the Connection list is consulted exactly once per field when it is not empty (never for Content-Length)");
     __CPROVER_assert(!(in[IN_CONN_SIZE] > 0 && g_listed_calls > 0) || (g_listed_name == (const void *)g_name_text && g_listed_del == ','),
                      "ensures: the Connection-list question is asked about this entry's name with separator ','");
     __CPROVER_assert(g_substr_calls == 0, "ensures: list membership is decided by strListIsMember (not by a substring search)");
@@ -139,6 +144,8 @@ void h_copy(void)
     __CPROVER_assert(!(id == OTHER && appended == 1), "reach: unregistered field relayed");
     __CPROVER_assert(!(id == OTHER && appended == 0), "reach: unregistered field cropped by Connection");
     __CPROVER_assert(!(id == ACCEPT && listed(in) && appended == 0), "reach: registered default-group field cropped by Connection");
+    __CPROVER_assert(!(id == AUTHORIZATION && listed(in) && appended == 0), "reach: Authorization cropped by Connection");
+    __CPROVER_assert(!(id == AUTHORIZATION && !listed(in) && appended == 1), "reach: Authorization relayed");
     __CPROVER_assert(!(id == PROXY_AUTHORIZATION && appended == 1), "reach: Proxy-Authorization passed to a peer");
     __CPROVER_assert(!(id == PROXY_AUTHORIZATION && on(in[IN_SF_toOrigin]) && pass_login(have_login, login)), "reach: Proxy-Authorization dropped towards an origin despite login=PASS");
     __CPROVER_assert(!(id == PROXY_AUTHORIZATION && have_login && is_PROXYPASS(login) && appended == 1), "reach: login=PROXYPASS");
@@ -169,23 +176,28 @@ void h_maxfwd(void)
 
     const int out_total = g_add_calls + g_put_calls + g_puti_calls;
 #ifdef TWIN_MAXFWD
-    __CPROVER_assert(!(trace_or_options && n > 0) || !(g_puti_calls == 1 && g_puti_val == n - 1), "ensures: TWIN (negated) emitted value is n-1");
+    __CPROVER_assert(!(trace_or_options && n > 0 && !listed(in)) || !(g_puti_calls == 1 && g_puti_val == n - 1), "ensures: TWIN (negated) emitted value is n-1");
 #else
-    __CPROVER_assert(!(trace_or_options && n > 0) || (g_puti_calls == 1 && g_puti_id == MAX_FORWARDS && g_puti_val == n - 1),
+    __CPROVER_assert(!(trace_or_options && n > 0 && !listed(in)) || (g_puti_calls == 1 && g_puti_id == MAX_FORWARDS && g_puti_val == n - 1),
                      "ensures: TRACE/OPTIONS with Max-Forwards n > 0 => exactly one Max-Forwards is emitted and its value is n-1");
 #endif
+    __CPROVER_assert(g_puti_calls == 0 || (g_puti_calls == 1 && g_puti_id == MAX_FORWARDS && n > 0 && g_puti_val == n - 1),
+                     "ensures: whatever is emitted is one Max-Forwards with the value n-1 of a positive n");
+    __CPROVER_assert(!listed(in) || out_total == 0,
+                     "pinned: a Max-Forwards that the client names in Connection is dropped like any other nominated field (decrementing it would also satisfy the property)");
     __CPROVER_assert(g_add_calls == 0 && g_put_calls == 0, "ensures: the client's own Max-Forwards entry is never copied as is");
     __CPROVER_assert(!(trace_or_options && n <= 0) || out_total == 0,
                      "ensures: TRACE/OPTIONS with Max-Forwards 0, a negative or a malformed value => no Max-Forwards goes upstream");
     __CPROVER_assert(trace_or_options || out_total == 0, "pinned: on every other method the Max-Forwards field is dropped, not forwarded");
     __CPROVER_assert(g_int64_calls <= 1, "ensures: the value is parsed at most once");
-    __CPROVER_assert(g_listed_calls == 0, "pinned: the Connection list is not consulted for Max-Forwards (Squid emits its own)");
+    __CPROVER_assert(g_listed_calls == (in[IN_CONN_SIZE] > 0 ? 1 : 0), "pinned: the Connection list is consulted exactly once when it is not empty");
 #ifdef REACH
     __CPROVER_assert(!(g_puti_calls == 1 && g_puti_val == 0), "reach: Max-Forwards: 1 forwarded as 0");
     __CPROVER_assert(!(g_puti_calls == 1 && g_puti_val == 9223372036854775806L), "reach: INT64_MAX forwarded as INT64_MAX-1");
     __CPROVER_assert(!(trace_or_options && n == 0), "reach: Max-Forwards: 0 dropped");
     __CPROVER_assert(!(trace_or_options && n < 0), "reach: malformed value dropped");
     __CPROVER_assert(!(!trace_or_options && n > 0), "reach: GET with Max-Forwards");
+    __CPROVER_assert(!(trace_or_options && n > 0 && listed(in)), "reach: Max-Forwards named in Connection");
     __CPROVER_assert(!(in[IN_METHOD] == METHOD_OPTIONS && g_puti_calls == 1), "reach: OPTIONS");
 #endif
 }
